@@ -19,6 +19,13 @@ DEP_UNIVERSE = ("a", "b", "c", "zz")     # zz is never sent: a missing dependenc
 
 
 def script_of(name, variant):
+    # variants 2, 3 are a proper prefix / a proper extension of variant 0; variant 4 is the empty script
+    if variant == 2:
+        return [f"{name}0:l1"]
+    if variant == 3:
+        return [f"{name}0:l1", f"{name}0:l2", f"{name}0:l3"]
+    if variant == 4:
+        return []
     return [f"{name}{variant}:l1", f"{name}{variant}:l2"] if variant == 0 else [f"{name}{variant}:only"]
 
 
@@ -69,10 +76,11 @@ def verify_output(seq, lines):
         deps.setdefault(n, set()).update(d)
     pos = 0
     order = []
+    empties = {n for n, sc in scripts.items() if not sc}      # a block without lines leaves no trace: nothing to locate
     while pos < len(lines):
         hit = None
         for n, sc in scripts.items():
-            if lines[pos:pos + len(sc)] == sc:
+            if sc and lines[pos:pos + len(sc)] == sc:
                 hit = n
                 break
         if hit is None:
@@ -81,12 +89,14 @@ def verify_output(seq, lines):
             return f"block {hit} emitted twice"
         order.append(hit)
         pos += len(scripts[hit])
-    missing = set(scripts) - set(order)
+    missing = set(scripts) - set(order) - empties
     if missing:
         return f"blocks dropped: {sorted(missing)}"
     idx = {n: i for i, n in enumerate(order)}
     for n, ds in deps.items():
         for d in ds:
+            if n in empties or d in empties:
+                continue
             if idx[d] >= idx[n]:
                 return f"block {n} emitted before its dependency {d}"
     return None
@@ -251,6 +261,9 @@ def main(tier="quick"):
         maxlen, rest = 4, block_choices()
         firsts = block_choices()
     res = par.pmap(worker, [(f, maxlen, rest) for f in firsts])
+    # a second, smaller space: scripts that are prefixes / extensions of one another and the empty script, two names, <= 3 blocks
+    rel = [(n, v, deps) for n in ("a", "b") for v in (0, 2, 3, 4) for k in range(3) for deps in itertools.combinations(("a", "b"), k)]
+    res += par.pmap(worker, [(f, 3, rel) for f in rel])
     stats = Counter()
     recs = []
     distinct = 0
